@@ -449,9 +449,6 @@ Lemma nofail_ref_texts ids : nofail (ref_texts T tab_en ids).
 Proof. induction ids as [|i ids IH]; cbn [ref_texts]; nofail_tac. Qed.
 Hint Resolve nofail_named_paths nofail_ref_texts : nofail.
 
-Lemma nofail_detach_from p c : nofail (detach_from p c).
-Proof. unfold detach_from. nofail_tac. Qed.
-Hint Resolve nofail_detach_from : nofail.
 
 (* ---------- operations that are nf as a whole *)
 Lemma nf_raw_set_character_data i v version : nf (raw_set_character_data T check_fn i v version).
@@ -466,6 +463,10 @@ Proof. unfold raw_create_sub_element. pose proof nf_create_sub_element_inner. nf
 Lemma nf_raw_create_sub_element_at self name pos version : nf (raw_create_sub_element_at T self name pos version).
 Proof. unfold raw_create_sub_element_at. pose proof nf_create_sub_element_inner. nf_tac. Qed.
 
+(* detach_from fails (ElementNotFound) only before it writes *)
+Lemma nf_detach_from p c : nf (detach_from p c).
+Proof. unfold detach_from. nf_tac. Qed.
+
 (* make_unique_item_name fails only at the very beginning (no item name) *)
 Lemma nf_make_unique_item_name i m pp : nf (make_unique_item_name T i m pp).
 Proof. unfold make_unique_item_name. nf_tac. Qed.
@@ -475,6 +476,6 @@ End NF.
 #[export] Hint Resolve nofail_item_name nofail_is_identifiable nofail_content_insert nofail_get_element_by_path
   nofail_add_identifiable nofail_remove_identifiable nofail_fix_identifiables nofail_add_reference_origin
   nofail_fix_reference_origins nofail_remove_reference_origin nofail_unique_loop nofail_dfs_ids nofail_named_paths
-  nofail_ref_texts nofail_detach_from : nofail.
+  nofail_ref_texts : nofail.
 #[export] Hint Resolve nf_raw_set_character_data nf_raw_set_attribute nf_create_sub_element_inner
-  nf_raw_create_sub_element nf_raw_create_sub_element_at nf_make_unique_item_name : nf.
+  nf_raw_create_sub_element nf_raw_create_sub_element_at nf_make_unique_item_name nf_detach_from : nf.
